@@ -501,6 +501,34 @@ fn harness_notes(ix: &Ix, f: &mut Findings) {
 
 // ------------------------------------------------------------------------------------------ C01
 fn c01(ix: &Ix, f: &mut Findings) {
+    // "handled" means handled as a whole: a handler that was entered runs to its end (or panics) before the actor does anything
+    // else - it is not abandoned at an await point because, say, the asker lost interest
+    for a in 0..ix.actors.len() {
+        let cancelled = matches!(&ix.actors[a].ended, Some((_, sum, _)) if sum.cancelled);
+        let mut open: Option<(usize, u64)> = None;
+        for (i, he) in hook_trace(ix, a) {
+            let next = match he {
+                HE::HExit(u) | HE::HPanic(u) => {
+                    if open.map(|o| o.1) == Some(u) {
+                        open = None;
+                    }
+                    continue;
+                }
+                HE::HEnter(u) => Some((i, u)),
+                HE::RunPoll(_) | HE::StopEnter(_) | HE::Ended => None,
+                _ => continue,
+            };
+            if let Some((p, u)) = open.take() {
+                if !cancelled {
+                    f.v("C01.whole", Some(a), format!("actor {a}: the handler of message uid {u} was entered at log position {p} and never finished, yet the actor went on to {:?} at {i}: an accepted message is handled as a whole", he));
+                }
+            }
+            if next.is_some() {
+                f.o("C01.whole");
+                open = next;
+            }
+        }
+    }
     for (uid, hs) in &ix.henter {
         f.o("C01.once");
         if hs.len() > 1 {
